@@ -63,7 +63,7 @@ OPAQUE = ("hypot", "f", "abs", "heaviside", "Heaviside")
 def refusal(route, text, exc, jit):
     """loud refusals that are errors, not mistranslations (DESIGN.md C11); None = unexpected"""
     name, msg = type(exc).__name__, str(exc)
-    if name == "NameError" and ("'re'" in msg or "'im'" in msg) and _has(text, "abs"):
+    if (name == "NameError" or (jit and name == "TypingError")) and ("'re'" in msg or "'im'" in msg) and _has(text, "abs"):
         # sympy symbols are complex by default: simplify turns Abs(exp(a)) into exp(re(a)); the generated
         # code calls `re`, which the numpy namespace does not have.  Loud (NameError at call time).
         return "abs(exp(x)) is simplified to exp(re(x)) and `re` is not defined in the generated code (NameError)"
@@ -77,14 +77,14 @@ def refusal(route, text, exc, jit):
                 return "derivative of heaviside: DiracDelta is not defined (NameError)"
             if name == "ValueError" and "_print_Derivative" in msg:
                 return "derivative of an opaque function: _print_Derivative ValueError"
+            if name == "RecursionError" and route.startswith("diff:arr"):
+                return "derivative of an opaque function with respect to an indexed variable: RecursionError in the printer"
         if name == "RuntimeError" and "indexed variables" in msg:
             return "gradient of an expression with indexed variables (RuntimeError)"
     if route.startswith("array-fn") and name == "NameError":
         return "_make_expression_array: name not in its numpy namespace (NameError)"
     if route.startswith("array-fn") and name == "TypeError" and "heaviside()" in msg and "eaviside(" in text:
         return "_make_expression_array: str(sympy) gives Heaviside(x) with one argument for numpy.heaviside (TypeError)"
-    if route.startswith("call-array") and name == "ValueError" and ("broadcast" in msg) and _constant_row(text):
-        return "rank-2 tensor expression with a constant row called with arrays (ValueError: cannot broadcast)"
     if jit and route.startswith("array-fn") and name == "TypingError":
         return "_make_expression_array: numba cannot type the generated code (TypingError)"
     if route.startswith("evaluate") and name == "NotImplementedError" and _has(text, "hypot"):
@@ -99,14 +99,6 @@ def _deriv_fpe(route, exc):
     (e.g. cosh(a)**(-2) for 1 - tanh(a)**2 at a = 1000) where the written formula is well-conditioned; the
     harness runs numpy with seterr(all='raise'), so this surfaces as FloatingPointError -> point skipped"""
     return route.startswith(("diff", "derivatives", "tensor-diff", "tensor-derivatives")) and isinstance(exc, FloatingPointError)
-
-
-def _constant_row(ttext):
-    """does the rank-2 tensor text `[[p, q], [r, s]]` have a row without variables?"""
-    if not ttext.startswith("[["):
-        return False
-    rows = ttext[2:-2].split("], [")
-    return any(not (_has_name(row, "a") or _has_name(row, "b")) for row in rows)
 
 
 class Rec:
@@ -417,6 +409,8 @@ def variant_chunk(case):
                 why = refusal(route, _text, exc, jit)
                 if why:
                     rec.refs[why] += 1
+                elif _deriv_fpe(route, exc):
+                    rec.skipped += 1
                 else:
                     rec.bad(f"{variant}/{route}", shape, f"raises {type(exc).__name__}", _text,
                             f"{type(exc).__name__}: {str(exc)[:200]}", replay(route, plist), "variant_chunk")
@@ -438,7 +432,8 @@ def variant_chunk(case):
             # no signature: the variables are those that occur; called by keyword
             order = list(e.vars)
             exp_vars = sorted(ren.get(n, n) for n in present)
-            if sorted(order) != exp_vars:
+            # (simplification may remove a variable, e.g. a-a)
+            if not set(order) <= set(exp_vars) or order != sorted(order):
                 rec.bad(f"{variant}/construct", shape, "variables differ from the symbols of the text", text,
                         f"{order} != {exp_vars}", replay("call", [kept[0][0]]), "variant_chunk")
                 continue
@@ -464,9 +459,11 @@ def variant_chunk(case):
         for route in routes:
             if route == "call":
                 for p, r in kept:
-                    if canon is None:
+                    if canon is None and not kw["consts"]:
                         call = lambda: e(**dict(zip(order, args_of(p))))  # noqa: E731
                     else:
+                        # (keyword arguments are not accepted once constants are bound: the numpy backend
+                        # wraps the function in `result(*args)` -> TypeError; positional in the advertised order)
                         call = lambda: e(*args_of(p))  # noqa: E731
                     ok, got = guarded(route, [p], call)
                     if not ok or not compare(route, [p], got, r["v"], r["e"]):
@@ -597,6 +594,8 @@ def tensor_chunk(case):
         kw = {"signature": ["a", "b"], "consts": {"k": O.K_VALUE} if _has_name(text, "k") else None,
               "user_funcs": {"f": O.user_f} if _has(text, "f") else None}
 
+        const_row = [False]
+
         def replay(route, plist, _e=[text, rank, pos]):
             return {"shape": shape, "exprs": [_e], "pts": plist, "routes": [route]}
 
@@ -606,10 +605,13 @@ def tensor_chunk(case):
                 return True, fn()
             except Exception as exc:  # noqa: BLE001
                 why = refusal(route, _text, exc, jit)
-                if why is None and route.startswith("array-fn") and type(exc).__name__ == "NameError":
-                    why = refusal(route, _text, exc, jit)
+                if why is None and route.startswith("call-array") and rank == 2 and type(exc).__name__ == "ValueError" \
+                        and "broadcast" in str(exc) and const_row[0]:
+                    why = "rank-2 tensor expression with a constant row called with arrays (ValueError: cannot broadcast)"
                 if why:
                     rec.refs[why] += 1
+                elif _deriv_fpe(route, exc):
+                    rec.skipped += 1
                 else:
                     rec.bad(f"rank{rank}/{route}", shape, f"raises {type(exc).__name__}", _text,
                             f"{type(exc).__name__}: {str(exc)[:200]}", replay(route, plist), "tensor_chunk")
@@ -629,6 +631,9 @@ def tensor_chunk(case):
         ok, te = guarded("construct", [kept[0][0]], lambda: TensorExpression(ttext, **kw))
         if not ok:
             continue
+        if rank == 2:
+            # classification only (which refusal / finding family applies): a row without variables after simplification
+            const_row[0] = any(not ({str(x) for x in te._sympy_expr[i].free_symbols} - {"k"}) for i in range(2))
         if tuple(te.shape) != tshape or te.rank != rank:
             rec.bad(f"rank{rank}/construct", shape, "shape/rank of the tensor expression", ttext, f"{te.shape}",
                     replay("call", [kept[0][0]]), "tensor_chunk")
@@ -653,7 +658,7 @@ def tensor_chunk(case):
                 if ok:
                     rec.compared += 1
                     why = _close(np, got, ref_arr[..., :2], err_arr[..., :2])
-                    if why and rank == 2 and _constant_row(ttext):
+                    if why and rank == 2 and const_row[0]:
                         rec.bad("rank2/call-array2", "constant row", "array of length 2 is broadcast along the wrong axis", ttext,
                                 f"{why}; arguments {[_pt(p) for p in plist[:2]]}", replay(route, plist[:2]), "tensor_chunk")
                     elif why:
@@ -731,7 +736,7 @@ GRIDS = {
     "unit1": ["unit", [3], [False]],
     "polar": ["polar", [0.5, 2], 3],
     "sph": ["sph", 2, 3],
-    "cyl": ["cyl", [0.5, 2], [-1, 1], [2, 3], False],
+    "cyl": ["cyl", [0.5, 2], [-1, 2], [2, 3], False],
 }
 # text names of the atoms a / b on each grid (one-axis grids: canonical name and its alias)
 GRID_NAMES = {"cart2": ("x", "y"), "unit1": ("x", "x"), "polar": ("r", "radius"), "sph": ("radius", "r"), "cyl": ("r", "z")}
@@ -827,6 +832,8 @@ def field_chunk(case):
             why = refusal(route, text, exc, jit)
             if why:
                 rec.refs[why] += 1
+            elif isinstance(exc, FloatingPointError) and any(np.any(np.isnan(expected(t)[0])) for t in texts):
+                rec.outs["a cell is not well-conditioned and numpy raises (skipped)"] += 1
             else:
                 rec.bad(route, shape, f"raises {type(exc).__name__}", text, f"{type(exc).__name__}: {str(exc)[:200]}", replay,
                         "field_chunk")
@@ -996,8 +1003,7 @@ def main(run):
     explore("variant_chunk", vcases, "I", "variants[I]", chunksize=2)
     jv = [{"variant": "repl", "shape": shp, "exprs": texts[-1:], "seed": seed, "routes": ["numba", "numba-array"]}
           for shp, texts in _by_shape(O.level1(["a", "b"]), VARIANTS["repl"][0]).items()]
-    if tier == "thorough":
-        explore("variant_chunk", jv, "J", "variants[J]", chunksize=1)
+    explore("variant_chunk", jv, "J", "variants[J]", chunksize=1)
     mixed = [[o, "a", "alpha"] for o in O.BINARY] + [[o, "alpha", "a"] for o in O.BINARY] + \
             [[o, [u, "alpha"], "a"] for o in ("add", "userf") for u in ("sin", "neg")]
     explore("mixed_alias_chunk", [{"shape": O.shape(t), "exprs": [O.text(t)], "seed": seed} for t in mixed], "I",
